@@ -146,9 +146,14 @@ func (e *Engine) store(t types.Type, p *value, v value) {
 			}
 		default:
 			for i := range v {
-				if dst[i] != v[i] {
-					e.rawStore(&dst[i], v[i])
+				// skip unchanged scalars; anything else (strings, slices,
+				// interfaces are not comparable with ==) is stored
+				if ta, ok := dst[i].(*Term); ok {
+					if tb, ok := v[i].(*Term); ok && ta == tb {
+						continue
+					}
 				}
+				e.rawStore(&dst[i], v[i])
 			}
 		}
 	default:
